@@ -721,11 +721,80 @@ def check_mc_case(ctx, case):
   return {"nontrivial": bool(numpy.any(exact > 1e-30))}
 
 
+def gen_mcq_case(rng, qn, iters, per_loop, npend):
+  g, lo, hi = gen_gp(rng, False)
+  while len(g["y"]) < 5:
+    g, lo, hi = gen_gp(rng, False)
+  dim = len(lo)
+  g["noise"] = [max(v, 1e-3 * g["hparams"][0]) for v in g["noise"]]
+  sets = [[[rng.uniform(lo[d], hi[d]) for d in range(dim)] for _ in range(qn)] for _ in range(3)]
+  pend = [[rng.uniform(lo[d], hi[d]) for d in range(dim)] for _ in range(npend)]
+  return {"kind": "mcq", "gp": g, "sets": sets, "pending": pend, "q": qn, "iters": iters, "per_loop": per_loop,
+          "np_seed": rng.randrange(2 ** 31)}
+
+
+def check_mcq_case(ctx, case):
+  """Labelled statistical test (both tiers, fixed seeds): parallel improvement for q simultaneous points, several candidate
+  sets per call, Monte-Carlo budgets that are not a multiple of the per-loop chunk.  Estimates from one joint call and from
+  batch_size=1 calls must both be within 5 standard errors (+ rare-event allowance) of a 300k-sample reference of
+  E[max(best - min over candidate+pending posterior draws, 0)] taken from the public predictor API."""
+  from libsigopt.compute.expected_improvement import ExpectedParallelImprovement
+  g = case["gp"]
+  try:
+    gp = build_gp(g)
+  except Exception as e:  # noqa
+    ctx.count("gp-build-failed:" + type(e).__name__)
+    return {"nontrivial": False}
+  sets = numpy.array(case["sets"], dtype=float)
+  m, qn, dim = sets.shape
+  pend = numpy.array(case["pending"], dtype=float).reshape(-1, dim)
+  q = ExpectedParallelImprovement(gp, qn, points_being_sampled=pend if len(pend) else None,
+                                  num_mc_iterations=case["iters"], num_mc_iterations_per_loop=case["per_loop"])
+  best = float(q.best_value)
+  numpy.random.seed(case["np_seed"])
+  R = 6
+  pts_arg = sets if qn > 1 else sets[:, 0, :]
+  joint = numpy.array([q.evaluate_at_point_list(pts_arg) for _ in range(R)])
+  single = numpy.array([q.evaluate_at_point_list(pts_arg, batch_size=1) for _ in range(R)])
+  rs = numpy.random.RandomState(case["np_seed"] ^ 0x3C3C3C)
+  N = 300000
+  ref = numpy.zeros(m)
+  sd_one = numpy.zeros(m)
+  for k in range(m):
+    u = numpy.vstack([sets[k], pend])
+    mu = gp.compute_mean_of_points(u)
+    cov = gp.compute_covariance_of_points(u)
+    w, V = numpy.linalg.eigh((cov + cov.T) / 2)
+    L = V * numpy.sqrt(numpy.maximum(w, 0))
+    smp = numpy.maximum((best - (mu[None, :] + rs.normal(size=(N, len(u))) @ L.T)).max(axis=1), 0.0)
+    ref[k] = smp.mean()
+    sd_one[k] = smp.std(ddof=1)
+  executed = -(-case["iters"] // min(case["per_loop"], case["iters"])) * min(case["per_loop"], case["iters"])
+  sig = float(numpy.sqrt(gp.compute_variance_of_points(numpy.vstack([sets.reshape(-1, dim), pend]))).max())
+  ctx.count(f"mcq:q={qn}:budget={case['iters']}/{case['per_loop']}:pending={len(pend)}")
+  for name, reps in (("one joint call", joint), ("batch_size=1", single)):
+    est = reps.mean(0)
+    se = numpy.maximum(reps.std(0, ddof=1) / math.sqrt(R), sd_one / math.sqrt(R * executed))
+    tot = numpy.sqrt(se ** 2 + (sd_one / math.sqrt(N)) ** 2)
+    lim = 5 * tot + 10 * sig / (R * executed) + 1e-12
+    dev = numpy.abs(est - ref)
+    if numpy.any(dev > lim):
+      i = int(numpy.argmax(dev / lim))
+      ctx.violation(f"C05 [statistical] Monte-Carlo parallel improvement (q={qn}, {m} candidate sets, {name}, budget "
+                    f"{case['iters']}/{case['per_loop']}) is not within 5 standard errors of E[max(best - min Y, 0)]",
+                    {"case": case, "set": i, "estimate": float(est[i]), "reference": float(ref[i]), "standard_error": float(tot[i]),
+                     "deviation_in_standard_errors": float(dev[i] / max(tot[i], 1e-300)), "evaluated_as": name}, signature="qEI-vs-exact")
+      break
+  return {"nontrivial": bool(numpy.any(ref > 1e-30))}
+
+
 # ------------------------------------------------------------------ entry points
 
 def check_case(ctx, case):
   try:
-    if case["kind"] == "mc":
+    if case["kind"] == "mcq":
+      info = check_mcq_case(ctx, case)
+    elif case["kind"] == "mc":
       info = check_mc_case(ctx, case)
     else:
       info = check_af_case(ctx, case)
@@ -735,7 +804,7 @@ def check_case(ctx, case):
   key["gp"] = [case["gp"]["kernel"], case["gp"]["x"], case["gp"]["y"]]
   sample = None
   if info["nontrivial"]:
-    sample = {"kind": case["kind"], "kernel": case["gp"]["kernel"], "n": len(case["gp"]["y"]), "points": len(case["points"]),
+    sample = {"kind": case["kind"], "kernel": case["gp"]["kernel"], "n": len(case["gp"]["y"]), "points": len(case.get("points", case.get("sets", []))),
               "batches": case.get("batches"), "pfs": [p["type"] for p in case.get("pfs", [])]}
   ctx.case(key=key, nontrivial=info["nontrivial"], sample=sample)
 
@@ -768,7 +837,7 @@ def run(ctx, scale):
   ctx.partial = [
     "IEEE rounding is not modelled: implementation compared with the Float model within max(1e-12, 64·eps·cancellation)·scale (DESIGN 2.2)",
     "posterior mean/variance are inputs of the model (public predictor API; their correctness is C02)",
-    "Monte-Carlo parallel improvement vs exact value is a labelled statistical test (thorough tier only; 4 standard errors from 8 independent repeats)",
+    "Monte-Carlo parallel improvement vs exact value is a labelled statistical test (q=1 vs analytic/reference: thorough tier, 4 standard errors from 8 repeats; q>=1 with several candidate sets and odd budgets vs a 300k-sample reference: both tiers, 5 standard errors)",
     "finiteness is checked on the implementation's outputs; the theorems are over the reals (no overflow notion)",
   ]
   if scale == 1:
@@ -781,6 +850,14 @@ def run(ctx, scale):
     check_case(ctx, gen_case(ctx.rng))
     if len(ctx.violations) >= 5:
       return
+  if scale == 1:
+    # labelled statistical test on fixed shapes, both tiers: several candidate sets per call, q = 1 and 2, odd budgets
+    for qn, iters, per_loop, npend in ([(2, 2500, 1000, 1), (1, 2500, 1000, 2), (2, 3000, 1000, 0)] if ctx.tier == "quick" else
+                                       [(2, 2500, 1000, 1), (1, 2500, 1000, 2), (2, 3000, 1000, 0), (3, 2500, 1000, 1), (2, 25000, 10000, 0),
+                                        (1, 1500, 1000, 0), (2, 1000, 1000, 2), (2, 2500, 1000, 1)]):
+      check_case(ctx, gen_mcq_case(ctx.rng, qn, iters, per_loop, npend))
+      if len(ctx.violations) >= 5:
+        return
   if ctx.tier == "thorough" and scale == 1:
     # labelled statistical test; plain qEI first (without / with pending points), then with failure models
     plan = ([(0, 0, False)] * 5 + [(1, 0, False)] * 3 + [(2, 0, False)] * 2 + [(1, 0, True), (2, 0, True), (2, 0, True)]
